@@ -34,7 +34,7 @@ def cases(draw, tier, fast):
     graph = dict(graph, start=start)
     walk = draw(gens.walks(graph, start, 0, 30 if tier == "quick" else 120))
     kind = draw(st.sampled_from(["walk", "walk", "edit1", "edits", "foreign_edit", "random", "foreign",
-                                 "extended", "site_edit", "site_edit", "site_edit"]))
+                                 "extended", "site_edit", "site_edit", "site_edit", "invisible_end", "invisible_end"]))
     if kind == "walk":
         text = walk
     elif kind == "edit1":
@@ -43,6 +43,11 @@ def cases(draw, tier, fast):
         text = draw(gens.edits(walk, draw(st.integers(2, 5))))
     elif kind == "foreign_edit":
         text = draw(gens.edits(walk, 1, alphabet="ACGTNacgt-"))
+    elif kind == "invisible_end":
+        # a walk with one "invisible" foreign character (or pair) glued to its end or its front: line feeds and other
+        # separators that regular expressions, strip() or splitlines() treat as the end of the text
+        trick = draw(st.sampled_from(["\n", "\n", "\n"] + gens.TAIL_TRICKS))
+        text = walk + trick if draw(st.integers(0, 3)) else trick + walk
     elif kind == "extended":
         text = walk + draw(st.text(alphabet="ACGT", min_size=1, max_size=3))
     elif kind == "site_edit":
@@ -68,7 +73,10 @@ def cases(draw, tier, fast):
     else:
         text = draw(gens.any_strings(16))
     check_kind = draw(st.sampled_from(["none", "none", "right", "right", "wrong", "wrong_length", "foreign", "empty"]))
-    check_len = draw(st.integers(1, 6))
+    if kind == "invisible_end" and draw(st.booleans()):
+        check_kind = "none"  # with a check the alphabet is usually judged by the check function first
+    check_len = draw(st.one_of(st.integers(1, 6), st.integers(1, 6), st.integers(1, 6),
+                               st.sampled_from([16, 31, 32, 33, 34, 40, 64, 65, 100])))
     extra = draw(st.sampled_from([0, 0, 0, 1, 2, 5, -1, -2, -7]))  # negative: fewer bits than the walk's value needs
     return {"graph": graph, "text": text, "table": draw(gens.tables(graph["k"])), "fast": fast,
             "check_kind": check_kind, "check_len": check_len, "extra": extra,
@@ -140,6 +148,10 @@ def evaluate(case):
         if len(states) > 0:
             labels.append("reject_pos>0")
     labels.append(site)
+    if not walk and len(states) >= 1 and len(text) - len(states) <= 2 and all(c not in o.NUC for c in text[len(states):]):
+        labels.append("foreign_only_at_end")
+    if check is not None and len(check) >= 33:
+        labels.append("check_len>=33")
     got = coding.run_decode(dict(case, bits="0" * width, vt=0), text, check=check)
     what = "decode(%r, width=%d, start=%d, check=%r, fast=%s)" % (text[:60], width, start, check, fast)
     if isinstance(got, str):
@@ -172,7 +184,7 @@ def s_fast(tier):
 
 FLOORS = {"foreign_at_deg1": 60, "foreign_at_branching": 60, "accept": 200, "reject:branching": 100, "reject:deg1": 60, "reject:dead_vertex": 40,
           "reject:check_only": 60, "reject:foreign_char": 60, "reject_pos>0": 150, "check:empty": 150,
-          "width_smaller_than_value": 150}
+          "width_smaller_than_value": 150, "foreign_only_at_end": 100, "check_len>=33": 250}
 
 SUBCHECKS = [
     SubCheck("normal", evaluate, strategy=s_normal, examples=(5000, 50000), shards=(16, 16), floors=FLOORS, rule=RULE),
